@@ -7,6 +7,7 @@ import leangate
 
 
 def run_property(pid, mod, tier, seed, t0):
+    os.environ["PYXAB_VERIF_TIER"] = tier      # thorough: longer horizons (up to 600 rounds, 2100 for the refresh schedule)
     known = fw.load_known()
     notes = []
     broken = []           # names of theorems / correspondences that no longer check
